@@ -16,7 +16,7 @@ META = {
     "shards": {"quick": 16, "thorough": 8},
     "exhaustive_within_bound": True,
     "bounds": {
-        "quick": "2-name universes {a,b}, {bb.i,bb.o}, {a,bb.o}, {bb.i,zz.p} (self-loops give fan-in/fan-out counts 0,1,2 = every threshold the rules use); registry in {none, bb(i;o)}; type in 14 supported + unsupported string + missing + a non-string value; 5 flag combinations forming a pairwise covering array (every pair of flags in all four value combinations; first = defaults)",
+        "quick": "2-name universes {a,b}, {bb.i,bb.o}, {a,bb.o}, {bb.i,zz.p}, {a,zz.}, {bb.o,bbx.i}, {bb.io,a} with bb(io;io) (self-loops give fan-in/fan-out counts 0,1,2 = every threshold the rules use); registry in {none, bb(i;o)}; type in 14 supported + unsupported string + missing + a non-string value; 5 flag combinations forming a pairwise covering array (every pair of flags in all four value combinations; first = defaults)",
         "thorough": "all 16 flag combinations on the 2-name universes + 3-name universe {a,b,c} with types restricted to {input, buf, and, bb_output, 0, unsupported}",
     },
     "outside": ["graphs with more names (every rule needs at most a focus node, two predecessors or two successors)", "second sentence of the property (library outputs are lint-clean) is a concrete side assertion made by every E1 harness on every circuit the library returns; C20's evidence aggregates the count from the other evidence files"],
@@ -24,7 +24,7 @@ META = {
     "rule": "state = explored path; transition = solver-decided branch",
 }
 
-UNIVERSES = {"trailing": ["a", "zz."], "plain": ["a", "b"], "pins": ["bb.i", "bb.o"], "mixed_o": ["a", "bb.o"], "mixed_i": ["bb.i", "zz.p"], "prefix": ["bb.o", "bbx.i"]}
+UNIVERSES = {"trailing": ["a", "zz."], "plain": ["a", "b"], "pins": ["bb.i", "bb.o"], "mixed_o": ["a", "bb.o"], "mixed_i": ["bb.i", "zz.p"], "prefix": ["bb.o", "bbx.i"], "bidir": ["bb.io", "a"]}
 # pairwise covering array over the four flags (every pair of flags takes all four value combinations); first row = defaults
 FLAGS_QUICK = [(True, False, True, False), (True, True, False, True), (False, False, False, True), (False, True, True, True), (False, True, False, False)]
 
@@ -73,6 +73,7 @@ def check_library_outputs(ctx, cid, spec):
     det = {"case": cid, "circuit": spec if len(spec["nodes"]) < 25 else None}
     plain = not A.bbs and not A.has_x()
     dotted_pins = any("." in p_ for v in A.bbs.values() for p_ in v[1] + v[2])
+    stray = sorted(n for n, t in A.types.items() if "." in n and t not in ("bb_input", "bb_output"))  # dotted names that are no pins
     calls = [("limit_fanin", lambda: tx.limit_fanin(build(spec), 2)), ("limit_fanout", lambda: tx.limit_fanout(build(spec), 2)),
              ("verilog round trip", lambda: cg.io.verilog_to_circuit(cg.io.circuit_to_verilog(build(spec)), spec["name"], blackboxes=[cg.BlackBox(v[0], v[1], v[2]) for v in A.bbs.values()])),
              ("fast verilog parse", lambda: cg.io.verilog_to_circuit(cg.io.circuit_to_verilog(build(spec)), spec["name"], blackboxes=[cg.BlackBox(v[0], v[1], v[2]) for v in A.bbs.values()], fast=True)),
@@ -101,6 +102,19 @@ def check_library_outputs(ctx, cid, spec):
             flags = {}
             if name in ("sensitization_transform", "miter") and False:
                 flags = {}
+            if name == "strip_blackboxes" and stray:
+                # known finding (known_findings.json): a gate named <inst>.<x> that is no pin of <inst> passes lint while the instance is
+                # registered; strip_blackboxes removes the instance and keeps the gate's name. Only that exact complaint gets the
+                # known signature; any other complaint about the result is reported under the ordinary one.
+                try:
+                    cg.lint(c, fail_fast=False)
+                    ctx.r["lint_clean_outputs"] += 1
+                except ValueError as e_:
+                    lines = [ln for ln in str(e_).split("\n")[1:] if ln.strip()]
+                    only = bool(lines) and all(ln in {f"node '{s_}' has blackbox syntax with no instance" for s_ in stray} for ln in lines)
+                    ctx.side(name + ":lint", False, "lint-clean-output:strip_blackboxes:dotted-non-pin-node" if only else f"lint-clean-output:{name}",
+                             f"library output is not lint-clean: {'; '.join(lines)[:200]}", det)
+                continue
             ctx.lint_clean(c, name, sig=f"lint-clean-output:{name}")
 
 
@@ -165,6 +179,8 @@ def run(ctx):
         else:
             pre = sg.base_pre(vars_, types=types or (TYPES + ["UNSUPPORTED", "MISSING", "NONSTR"]))
         registry = {"bb": (["i"], ["o"])} if reg else {}
+        if reg and "bb.io" in U:
+            registry = {"bb": (["io"], ["io"])}  # a box that lists the same pin as input and as output: no node type can satisfy both
         if reg and "bb.i" not in U and "bb.o" in U:
             registry = {"bb": ([], ["o"])}  # universes without the input pin: a box that only has the output pin (else the pin rule always fires)
         elif reg and "bb.o" not in U and "bb.i" in U:
